@@ -413,7 +413,7 @@ Section FinalCur.
   Let stopf := if j_stop c =? 0 then file_bound else j_stop c.
   Let bound := (stopf / j_bundle c + 1) * j_bundle c.
   Let mend := N.min merged_end bound.
-  Let fend0 := if negb (j_stop c =? 0) && ((j_stop c / j_bundle c + 1) * j_bundle c <=? merged_end) then JStop else JNil.
+  Let fend0 := file_end c merged_end.
   Let rest' := filter (fun b => bnum b <? mend) rest.
   Let first := j_first c.
   Let kept := j_kept c.
@@ -462,9 +462,19 @@ Section FinalCur.
              (N.ltb_spec (bnum b) (N.min merged_end bound)); cbn [andb]; try reflexivity; lia.
   Qed.
 
-  Lemma fc_mend_all : fend0 = JNil -> forall b, In b canon -> (bnum b <? mend) = (bnum b <? merged_end).
+  (* the first bundle of the file source (that of the cursor LIB) exists as soon as L is in the merged files *)
+  Lemma fc_fend0_old : bnum L < merged_end -> fend0 = (if negb (j_stop c =? 0) && ((j_stop c / j_bundle c + 1) * j_bundle c <=? merged_end) then JStop else JNil).
   Proof.
-    intros Hf b Hb. unfold fend0 in Hf. unfold mend, bound, stopf.
+    intros HLm. unfold fend0, file_end, first_bundle_ok. rewrite Hmode, Hcur. cbn [N.eqb Pos.eqb]. fold lib.
+    assert (Hb0 : j_bundle c <> 0) by lia.
+    pose proof (N.mul_div_le lib (j_bundle c) Hb0) as Hdiv.
+    replace (lib / j_bundle c * j_bundle c <? merged_end) with true; [rewrite andb_true_r; reflexivity|].
+    symmetry. apply N.ltb_lt. rewrite <- ELn in Hdiv. nia.
+  Qed.
+
+  Lemma fc_mend_all : bnum L < merged_end -> fend0 = JNil -> forall b, In b canon -> (bnum b <? mend) = (bnum b <? merged_end).
+  Proof.
+    intros HLm Hf b Hb. rewrite (fc_fend0_old HLm) in Hf. unfold mend, bound, stopf.
     destruct (N.ltb_spec (bnum b) merged_end) as [Hlt|Hge].
     - apply N.ltb_lt. apply N.min_glb_lt; [exact Hlt|].
       case_eq (j_stop c =? 0); intros E0; rewrite E0 in Hf; cbn [negb andb] in Hf.
@@ -481,7 +491,7 @@ Section FinalCur.
      match snd (from_cursor_run merged forked cu stopf (j_bundle c)) with
      | RsOk => fend0 | RsResolveErr => JInvalidArg | RsNotImplemented => JOther | RsFuel => JFuel end).
   Proof.
-    unfold run_files. rewrite Hmode, Hcur. cbn [N.eqb Pos.eqb].
+    unfold run_files. fold fend0. rewrite Hmode, Hcur. cbn [N.eqb Pos.eqb].
     change (if j_stop c =? 0 then 1000000000000 else j_stop c) with stopf.
     destruct (from_cursor_run merged forked cu stopf (j_bundle c)) as [fevs r]. reflexivity.
   Qed.
@@ -490,7 +500,7 @@ Section FinalCur.
   Lemma fc_files :
     from_cursor_run merged forked cu stopf (j_bundle c) = ([], RsOk) \/
     (from_cursor_run merged forked cu stopf (j_bundle c) = (map fev rest', RsOk) /\
-     lnk (bid L) rest' /\ (forall b, In b rest' -> In b merged)).
+     lnk (bid L) rest' /\ (forall b, In b rest' -> In b merged) /\ bnum L < merged_end).
   Proof.
     pose proof (merged_chain_ok canon merged_end Hchain) as Hmok. fold merged in Hmok.
     set (D := file_delivery merged lib stopf (j_bundle c)).
@@ -510,7 +520,7 @@ Section FinalCur.
           pose proof fc_rest_above as H. rewrite Forall_forall in H. apply N.ltb_lt. exact (H y Hy). }
         rewrite Eb, Ea. reflexivity.
       - destruct (c06_delivery_segment_proof merged lib stopf (j_bundle c) Hmok) as [_ HDok]. fold D in HDok. rewrite HD' in HDok.
-        destruct (lnk_of_chain_ok _ HDok) as [x Hx]. cbn [lnk] in Hx. split; [apply Hx|].
+        destruct (lnk_of_chain_ok _ HDok) as [x Hx]. cbn [lnk] in Hx. split; [apply Hx|]. split; [|apply N.ltb_lt in ELm; unfold mend in ELm; lia].
         intros b Hb. assert (H : In b D) by (rewrite HD'; right; exact Hb). unfold D, file_delivery in H. apply filter_In in H as [H _]. exact H. }
     left. unfold from_cursor_run. fold lib. fold D. unfold D. rewrite fc_HD. cbn [filter]. rewrite ELm.
     rewrite (C06_Lists.filter_none _ _ rest); [reflexivity|].
@@ -649,12 +659,12 @@ Section FinalCur.
       destruct (h_ready (w_hub w)) eqn:Hrd; cbn [negb] in Hlt; [|discriminate].
       rewrite Hseen in Hro. apply (Hraw _ _ Hro). exact (fc_live burst k Hrd Hlt).
     - rewrite Hr. split; [reflexivity | discriminate].
-    - destruct fc_files as [Enone|(Erun & Hlr & Hrm)].
+    - destruct fc_files as [Enone|(Erun & Hlr & Hrm & HLm)].
       { rewrite Enone in Ef. cbn [fst] in Ef. destruct pre; discriminate. }
       rewrite Erun in Ef. cbn [fst] in Ef.
       apply map_eq_app in Ef as (Dpre & D2 & ED & Epre & E2). apply map_eq_cons in E2 as (bn & D' & ED2 & Ebn & _).
       subst pre e D2. rewrite Hseen in Hro. apply (Hraw _ _ Hro). exact (fc_join m Dpre bn D' lowest burst k Hlr Hrm ED Hj).
-    - rewrite Hseen in Hfo. destruct fc_files as [Enone|(Erun & Hlr & Hrm)].
+    - rewrite Hseen in Hfo. destruct fc_files as [Enone|(Erun & Hlr & Hrm & HLm)].
       + rewrite Enone in Hfo. cbn [fst snd undup] in Hfo.
         assert (E : fst res = []).
         { destruct Hfo as [[_ Hr]|[Hs _]]; [rewrite Hr; reflexivity | discriminate]. }
@@ -673,7 +683,7 @@ Section FinalCur.
           rewrite (pass_delivered c _ Hp Hns), (undup_blocks c Hfilter _ (Some (bnum L))), Erec.
           unfold rest'. rewrite <- (above_of_from_num canon lib L rest Hasc Hfrom ELn).
           unfold above, merged. rewrite !filter_filter'. apply filter_ext_in. intros b Hb.
-          rewrite (fc_mend_all Hn b Hb). apply andb_comm.
+          rewrite (fc_mend_all HLm Hn b Hb). apply andb_comm.
   Qed.
 End FinalCur.
 
